@@ -11,6 +11,7 @@ MODEL = {"quick": ("C14_mc_quick.cfg", 50000), "thorough": ("C14_mc_thorough.cfg
 # tlc -simulate: traces per worker, workers; every trace is one string of 5..12 symbols with PerString cases
 SIM = {"quick": (12, 4), "thorough": (300, 8)}
 SIM_DEPTH = 45
+JUDGE_CHUNK = 120000
 
 
 def run(ctx):
@@ -35,13 +36,21 @@ def run(ctx):
             cases.append(r)
     n_long = sum(1 for r in cases if len(r["cs"]["s"]) >= 5)
     D.write_ndjson(ctx.path("cases.ndjson"), cases)
+    n_exhaustive, n_cases = len(mc.records), len(cases)
+    del cases, seen
+    mc.records, sim.records = [], []          # several hundred thousand records: free them before reading the observations
     # direction A: every case in the real code
     D.run_harness(ctx, binary, ["run", ctx.path("cases.ndjson"), ctx.path("obs.ndjson")], timeout=900)
     obs = D.read_ndjson(ctx.path("obs.ndjson"))
-    if len(obs) != len(cases):
-        raise D.Inconclusive("harness wrote %d observations for %d cases" % (len(obs), len(cases)))
-    # role 3
-    verdicts = D.judge(ctx, "C14_Judge", "C14_judge.cfg", ctx.path("obs.ndjson"), timeout=1500)
+    if len(obs) != n_cases:
+        raise D.Inconclusive("harness wrote %d observations for %d cases" % (len(obs), n_cases))
+    # role 3 (in chunks: TLC holds the whole observation file in memory)
+    verdicts = []
+    for n, lo in enumerate(range(0, len(obs), JUDGE_CHUNK)):
+        part = ctx.path("obs-%03d.ndjson" % n)
+        D.write_ndjson(part, obs[lo:lo + JUDGE_CHUNK])
+        verdicts += D.judge(ctx, "C14_Judge", "C14_judge.cfg", part, timeout=900, tag="judge-%03d" % n)
+        os.remove(part)
     D.check_complete(verdicts, obs)
     malformed = [v for v in verdicts if v.get("sig", "").startswith("malformed|")]
     if malformed:
@@ -56,7 +65,7 @@ def run(ctx):
     by_id = {o["id"]: o for o in obs}
     keys = [nontrivial_key(o) for o in obs]
     step = max(1, len(obs) // 5)
-    ctx.extra["cases_exhaustive"] = len(mc.records)
+    ctx.extra["cases_exhaustive"] = n_exhaustive
     ctx.extra["cases_sampled_len_5_to_12"] = n_long
     ctx.extra["patients_via_jsonformat"] = sum(1 for o in obs if o.get("res") == "jsonformat")
     return D.finish(
